@@ -141,10 +141,9 @@ Definition starts_cp (s : str) : bool := match s with a :: _ => comma_or_period 
 (* what must not follow the rendering of an element for the parse to stop where the rendering ends *)
 Definition head_cond (e : elem) (rest : str) : Prop :=
   match e with
-  | EDay | ENumMonth | EHour => starts_digit rest = false
+  | EDay | EUnderDay | ENumMonth | EHour => starts_digit rest = false
   | EZeroSecond => starts_cp rest = false
   | ESp => starts_with_space rest = false
-  | EUnderDay => False
   | _ => True
   end.
 
@@ -156,7 +155,7 @@ Lemma elem_ok e c st rest : valid_civil c -> head_cond e rest ->
 Proof.
   intros V HC. pose proof (v_year c V). pose proof (v_month c V). pose proof (v_day c V).
   pose proof (v_hour c V). pose proof (v_min c V). pose proof (v_sec c V). pose proof (v_wday c V).
-  destruct e; cbn [head_cond] in HC; try contradiction.
+  destruct e; cbn [head_cond] in HC.
   - (* ELit *) cbn. rewrite Ascii.eqb_refl. reflexivity.
   - (* ESp *) cbn [fmt_elem app parse_elem upd]. cbn [Ascii.eqb Bool.eqb andb cutspace].
     rewrite cutspace_id by assumption. reflexivity.
@@ -173,6 +172,13 @@ Proof.
   - (* EWeekDay *) cbn [fmt_elem upd parse_elem].
     destruct (wday_lookup (c_wday c) rest ltac:(lia)) as [i ->]. reflexivity.
   - (* EDay *) cbn [fmt_elem upd parse_elem]. rewrite getnum_fmt12 by (lia || assumption). reflexivity.
+  - (* EUnderDay *) cbn [fmt_elem upd parse_elem]. destruct (c_day c <? 10) eqn:E.
+    + cbn [app]. cbn [Ascii.eqb Bool.eqb andb].
+      pose proof (getnum_fmt12 (c_day c) rest ltac:(lia) HC) as K. unfold fmt12 in K. rewrite E in K.
+      cbn [app] in K. rewrite K. reflexivity.
+    + unfold fmt2. cbn [app]. rewrite (dchar_not " ") by (lia || reflexivity).
+      pose proof (getnum_fmt2 false (c_day c) rest ltac:(lia)) as K. unfold fmt2 in K. cbn [app] in K.
+      rewrite K. reflexivity.
   - (* EZeroDay *) cbn [fmt_elem upd parse_elem]. rewrite getnum_fmt2 by lia. reflexivity.
   - (* EHour *) cbn [fmt_elem upd parse_elem]. rewrite getnum_fmt2 by lia. case_ifs. reflexivity.
   - (* EZeroMinute *) cbn [fmt_elem upd parse_elem]. rewrite getnum_fmt2 by lia. case_ifs. reflexivity.
@@ -186,7 +192,7 @@ Qed.
 (* may e be followed by `next` (None: end of the layout) *)
 Definition follow_ok (e : elem) (next : option elem) : bool :=
   match e with
-  | EDay | ENumMonth | EHour =>
+  | EDay | EUnderDay | ENumMonth | EHour =>
     match next with
     | None | Some ESp => true
     | Some (ELit c) => negb (is_digit c)
@@ -203,14 +209,17 @@ Definition follow_ok (e : elem) (next : option elem) : bool :=
     | None | Some EHour | Some ELongYear | Some EZeroDay | Some EYear | Some ENumTZ | Some EMonth => true
     | _ => false
     end
-  | EUnderDay => false
   | _ => true
   end.
+
+(* a space run followed by the space-padded day: handled as a pair *)
+Definition sp_ud (e : elem) (next : option elem) : bool :=
+  match e, next with ESp, Some EUnderDay => true | _, _ => false end.
 
 Fixpoint wf_layout (es : list elem) : bool :=
   match es with
   | [] => true
-  | e :: es' => follow_ok e (hd_error es') && wf_layout es'
+  | e :: es' => (follow_ok e (hd_error es') || sp_ud e (hd_error es')) && wf_layout es'
   end.
 
 Lemma follow_head e es' c : valid_civil c -> follow_ok e (hd_error es') = true -> head_cond e (fmt_elems c es').
@@ -235,14 +244,34 @@ Qed.
 Fixpoint apply_all (es : list elem) (c : civil) (st : pst) : pst :=
   match es with [] => st | e :: es' => apply_all es' c (upd e c st) end.
 
+(* the space-padded day parses the same after a preceding space run has eaten its padding *)
+Lemma underday_cutspace c st R : valid_civil c ->
+  parse_elem EUnderDay st (cutspace (fmt_elem c EUnderDay ++ R)) = parse_elem EUnderDay st (fmt_elem c EUnderDay ++ R).
+Proof.
+  intros V. pose proof (v_day c V). cbn [fmt_elem]. destruct (c_day c <? 10) eqn:E.
+  - cbn [app cutspace]. cbn [Ascii.eqb Bool.eqb andb]. cbn [cutspace].
+    rewrite (dchar_not " ") by (lia || reflexivity). cbn [parse_elem].
+    rewrite (dchar_not " ") by (lia || reflexivity). cbn [Ascii.eqb Bool.eqb andb]. reflexivity.
+  - unfold fmt2. cbn [app cutspace]. rewrite (dchar_not " ") by (lia || reflexivity). reflexivity.
+Qed.
+
 Lemma elems_ok c : valid_civil c -> forall es st, wf_layout es = true ->
   parse_elems es st (fmt_elems c es) = Some (apply_all es c st, []).
 Proof.
   intros V. induction es as [|e es IH]; intros st W; [reflexivity|].
   cbn [wf_layout] in W. apply andb_true_iff in W as [F W].
   change (fmt_elems c (e :: es)) with (fmt_elem c e ++ fmt_elems c es).
-  cbn [parse_elems apply_all]. rewrite elem_ok by (assumption || apply follow_head; assumption).
-  apply IH. assumption.
+  destruct (follow_ok e (hd_error es)) eqn:FO.
+  - cbn [parse_elems apply_all]. rewrite elem_ok by (assumption || apply follow_head; assumption).
+    apply IH. assumption.
+  - cbn [orb] in F. destruct e; try discriminate. destruct es as [|e' es']; [discriminate|].
+    destruct e'; try discriminate.
+    specialize (IH st W).
+    change (fmt_elems c (EUnderDay :: es')) with (fmt_elem c EUnderDay ++ fmt_elems c es') in *.
+    cbn [parse_elems apply_all upd] in *.
+    change (fmt_elem c ESp) with [" "]. cbn [app]. remember (fmt_elem c EUnderDay ++ fmt_elems c es') as Y eqn:EY.
+    assert (parse_elem ESp st (" " :: Y) = Some (st, cutspace Y)) as -> by reflexivity.
+    subst Y. rewrite underday_cutspace by assumption. exact IH.
 Qed.
 
 (* ------------------------------------------------------------------ the calendar *)
@@ -311,21 +340,18 @@ Proof.
   repeat (destruct H as [<-|H]; [reflexivity|]). contradiction.
 Qed.
 
-(* the one supported layout the generic argument does not cover: ANSIC ("_2" after a space) *)
-Definition ansic : list elem := nth 1 layouts [].
-
-Lemma layouts_wf L : In L layouts -> L <> ansic -> wf_layout L = true.
+Lemma layouts_wf L : In L layouts -> wf_layout L = true.
 Proof.
-  intros H N. unfold layouts in H. cbn [In] in H.
-  repeat (destruct H as [<-|H]; [first [reflexivity | exfalso; apply N; reflexivity]|]). contradiction.
+  intros H. pose proof (eq_refl : forallb wf_layout layouts = true) as A.
+  rewrite forallb_forall in A. apply A. assumption.
 Qed.
 
 Lemma layout_roundtrip L loc off t :
-  In L layouts -> L <> ansic -> valid_zone loc -> valid_zone off ->
+  In L layouts -> valid_zone loc -> valid_zone off ->
   in_range (t + zone_of L loc off) -> (has_sec L = false -> t mod 60 = 0) ->
   parse_layout loc L (format_layout loc off L t) = Some t.
 Proof.
-  intros HL HN [Hl1 Hl2] [Ho1 Ho2] R P.
+  intros HL [Hl1 Hl2] [Ho1 Ho2] R P.
   unfold parse_layout, format_layout. fold (zone_of L loc off) in *.
   assert (Hz : -86400 < zone_of L loc off < 86400 /\ zone_of L loc off mod 60 = 0).
   { unfold zone_of. destruct (has_tz L); split; assumption. }
@@ -352,7 +378,7 @@ Proof.
 Qed.
 
 Lemma first_match_layout L loc off t :
-  In L layouts -> L <> ansic -> valid_zone loc -> valid_zone off ->
+  In L layouts -> valid_zone loc -> valid_zone off ->
   in_range (t + zone_of L loc off) -> (has_sec L = false -> t mod 60 = 0) ->
   (forall L', In L' layouts -> parse_layout loc L' (format_layout loc off L t) = None
                                \/ parse_layout loc L' (format_layout loc off L t) = Some t) ->
@@ -373,4 +399,94 @@ Proof.
   - destruct (IH H) as (pre & L & post & -> & HP & HN).
     exists (L0 :: pre), L, post. repeat split; [assumption|].
     intros L' [<-|HI]; [assumption | apply HN; assumption].
+Qed.
+
+(* ------------------------------------------------------------------ absolute texts and the two earlier branches *)
+(* every supported layout starts with a year / day / weekday-name element and contains the literal ':'
+   (between hour and minute): no supported layout renders to an all-digit text *)
+Definition first_ok (e : elem) : bool :=
+  match e with ELongYear | EYear | EZeroDay | EDay | EWeekDay => true | _ => false end.
+Definition is_colon (e : elem) : bool := match e with ELit c => Ascii.eqb c ":" | _ => false end.
+Definition shape_ok (L : list elem) : bool :=
+  match L with e :: _ => first_ok e | [] => false end && existsb is_colon L.
+
+Lemma layouts_shape L : In L layouts -> shape_ok L = true.
+Proof.
+  intros H. pose proof (eq_refl : forallb shape_ok layouts = true) as A.
+  rewrite forallb_forall in A. apply A. assumption.
+Qed.
+
+Lemma digits_val_nondigit s1 : forall x c s2, is_digit c = false -> digits_val x (s1 ++ c :: s2) = None.
+Proof.
+  induction s1 as [|a s1 IH]; intros x c s2 Hc; cbn [app digits_val].
+  - rewrite Hc. reflexivity.
+  - destruct (is_digit a); [apply IH; assumption | reflexivity].
+Qed.
+
+Lemma fmt_elems_app c l1 l2 : fmt_elems c (l1 ++ l2) = fmt_elems c l1 ++ fmt_elems c l2.
+Proof. unfold fmt_elems. rewrite map_app, concat_app. reflexivity. Qed.
+
+Lemma fmt_has_colon c L : existsb is_colon L = true -> exists s1 s2, fmt_elems c L = s1 ++ ":" :: s2.
+Proof.
+  intros H. apply existsb_exists in H as (e & HI & He).
+  destruct e; try discriminate. cbn in He. apply Ascii.eqb_eq in He. subst.
+  apply in_split in HI as (l1 & l2 & ->).
+  exists (fmt_elems c l1), (fmt_elems c l2). rewrite fmt_elems_app. reflexivity.
+Qed.
+
+Lemma wday_head w : 0 <= w <= 6 ->
+  exists a r, nth (Z.to_nat w) day_names [] = a :: r /\ Ascii.eqb a "-" = false /\ Ascii.eqb a "+" = false.
+Proof.
+  intros H. assert (H' : 0 <= w < 0 + Z.of_nat 7) by lia. clear H. revert w H'. apply Zrange_ind. intros k Hk.
+  cbv beta. do 7 (destruct k as [|k]; [do 2 eexists; split; [reflexivity | split; reflexivity]|]). lia.
+Qed.
+
+Lemma fmt_first_head c e : valid_civil c -> first_ok e = true ->
+  exists a r, fmt_elem c e = a :: r /\ Ascii.eqb a "-" = false /\ Ascii.eqb a "+" = false.
+Proof.
+  intros V F. pose proof (v_year c V). pose proof (v_day c V). pose proof (v_wday c V).
+  destruct e; try discriminate; cbn [fmt_elem].
+  - unfold fmt4. do 2 eexists. repeat split; apply dchar_not; (lia || reflexivity).
+  - unfold fmt2. do 2 eexists. repeat split; apply dchar_not; (lia || reflexivity).
+  - apply wday_head. lia.
+  - unfold fmt12, fmt2. destruct (c_day c <? 10) eqn:E; do 2 eexists; repeat split; apply dchar_not; (lia || reflexivity).
+  - unfold fmt2. do 2 eexists. repeat split; apply dchar_not; (lia || reflexivity).
+Qed.
+
+(* a rendered absolute time never takes the relative ('-') or the Unix-integer (ParseInt) branch *)
+Lemma pta_absolute_text c L loc now : valid_civil c -> In L layouts ->
+  parse_time_argument loc now (fmt_elems c L)
+  = match first_match loc layouts (fmt_elems c L) with Some t => Ok t | None => Err end.
+Proof.
+  intros V HL. pose proof (layouts_shape L HL) as S. unfold shape_ok in S.
+  apply andb_true_iff in S as [S1 S2].
+  destruct (fmt_has_colon c L S2) as (s1 & s2 & Hs).
+  destruct L as [|e L']; [discriminate|].
+  destruct (fmt_first_head c e V S1) as (a & r & He & Hm & Hp).
+  assert (Hcons : fmt_elems c (e :: L') = a :: (r ++ fmt_elems c L')).
+  { change (fmt_elems c (e :: L')) with (fmt_elem c e ++ fmt_elems c L'). rewrite He. reflexivity. }
+  assert (Hpi : parse_int (fmt_elems c (e :: L')) = Err).
+  { rewrite Hcons. unfold parse_int. cbv zeta. rewrite Hm, Hp. cbn [orb]. rewrite <- Hcons, Hs.
+    unfold parse_uint. rewrite digits_val_nondigit by reflexivity.
+    destruct (s1 ++ ":" :: s2); reflexivity. }
+  unfold parse_time_argument, parse_time_argument_gen.
+  destruct (fmt_elems c (e :: L')) as [|a0 r0] eqn:Ef; [discriminate|].
+  injection Hcons as E1 E2. subst a0. rewrite Hm, Hpi. reflexivity.
+Qed.
+
+Lemma pta_layout L loc off now t :
+  In L layouts -> valid_zone loc -> valid_zone off ->
+  in_range (t + zone_of L loc off) -> (has_sec L = false -> t mod 60 = 0) ->
+  (forall L', In L' layouts -> parse_layout loc L' (format_layout loc off L t) = None
+                               \/ parse_layout loc L' (format_layout loc off L t) = Some t) ->
+  parse_time_argument loc now (format_layout loc off L t) = Ok t.
+Proof.
+  intros HL Hloc Hoff R P HA.
+  pose proof (first_match_layout L loc off t HL Hloc Hoff R P HA) as FM.
+  unfold format_layout in *. fold (zone_of L loc off) in *.
+  destruct Hloc as [Hl1 Hl2], Hoff as [Ho1 Ho2].
+  assert (Hz : -86400 < zone_of L loc off < 86400 /\ zone_of L loc off mod 60 = 0).
+  { unfold zone_of. destruct (has_tz L); split; assumption. }
+  destruct (civil_of_valid t (zone_of L loc off) R (proj1 Hz) (proj2 Hz)) as [V _].
+  rewrite pta_absolute_text by assumption. rewrite FM. reflexivity.
 Qed.
